@@ -1,5 +1,60 @@
-"""Hash tags and lengths of util/hashutil.py."""
+"""Hash tags and lengths of util/hashutil.py.
+
+Besides the module constants, every named derivation function is *executed once* with sentinel
+arguments while `_SHA256d_Hasher` is replaced by a recording subclass, and for each one we emit
+
+  TRUNC_<fn>  : Option Int     the `truncate_to` the function passes to the hasher (none = full 32 bytes)
+  TAGOF_<fn>  : List UInt8     the payload of the first netstring fed to the hasher (= the tag used)
+  NFEED_<fn>  : Nat            number of `update` calls (2 = tagged_hash shape, 3 = tagged_pair_hash shape)
+
+so that an edit of a truncation literal (e.g. the `16` in `storage_index_hash`) or of the tag a
+function uses changes Generated/Hashutil.lean and breaks the pinning theorems of C17.
+"""
 NAME = "Hashutil"
+
+A16 = bytes(range(1, 17))
+B16 = bytes(range(101, 117))
+S32 = bytes(range(33, 65))
+P20 = bytes(range(201, 221))
+
+# function name -> sentinel argument tuple
+FUNCS = [
+    ("storage_index_hash", (A16,)),
+    ("block_hash", (b"data",)),
+    ("uri_extension_hash", (b"data",)),
+    ("plaintext_hash", (b"data",)),
+    ("crypttext_hash", (b"data",)),
+    ("crypttext_segment_hash", (b"data",)),
+    ("plaintext_segment_hash", (b"data",)),
+    ("convergence_hash", (3, 10, 1024, b"data", S32)),
+    ("my_renewal_secret_hash", (S32,)),
+    ("my_cancel_secret_hash", (S32,)),
+    ("file_renewal_secret_hash", (S32, A16)),
+    ("file_cancel_secret_hash", (S32, A16)),
+    ("bucket_renewal_secret_hash", (S32, P20)),
+    ("bucket_cancel_secret_hash", (S32, P20)),
+    ("mutable_rwcap_key_hash", (A16, B16)),
+    ("mutable_rwcap_salt_hash", (b"URI:whatever",)),
+    ("ssk_writekey_hash", (b"privkey",)),
+    ("ssk_write_enabler_master_hash", (A16,)),
+    ("ssk_write_enabler_hash", (A16, P20)),
+    ("ssk_pubkey_fingerprint_hash", (b"pubkey",)),
+    ("ssk_readkey_hash", (A16,)),
+    ("ssk_readkey_data_hash", (A16, B16)),
+    ("ssk_storage_index_hash", (A16,)),
+    ("backupdb_dirhash", (b"contents",)),
+]
+
+
+def _first_netstring_payload(b):
+    """strict decode of the leading netstring of b (None when b does not start with one)"""
+    i = b.find(b":")
+    if i <= 0 or not b[:i].isdigit():
+        return None
+    n = int(b[:i])
+    if len(b) < i + 1 + n + 1 or b[i + 1 + n:i + 2 + n] != b",":
+        return None
+    return b[i + 1:i + 1 + n]
 
 
 def collect(h):
@@ -11,3 +66,34 @@ def collect(h):
     h.nat("CRYPTO_VAL_SIZE", hashutil.CRYPTO_VAL_SIZE, "util/hashutil.py")
     h.nat("KEYLEN", hashutil.KEYLEN, "util/hashutil.py")
     h.nat("IVLEN", hashutil.IVLEN, "util/hashutil.py")
+    h.bytes("SENTINEL_S32", S32, "extractor sentinel: the 32-byte value passed as lease secret / convergence secret")
+
+    rec = []
+    orig = hashutil._SHA256d_Hasher
+
+    class Rec(orig):
+        def __init__(self, truncate_to=None):
+            orig.__init__(self, truncate_to)
+            self._rec = [truncate_to, []]
+            rec.append(self._rec)
+
+        def update(self, data):
+            self._rec[1].append(bytes(data))
+            orig.update(self, data)
+
+    hashutil._SHA256d_Hasher = Rec
+    try:
+        for name, args in FUNCS:
+            del rec[:]
+            getattr(hashutil, name)(*args)
+            trunc, feeds = rec[-1]          # the hasher that produced the returned digest
+            tag = _first_netstring_payload(b"".join(feeds))
+            prov = "util/hashutil.py %s (observed by instrumenting _SHA256d_Hasher)" % name
+            if trunc is None:
+                h.raw("TRUNC_" + name, "Option Int", "none", prov)
+            else:
+                h.raw("TRUNC_" + name, "Option Int", "some (%d)" % int(trunc), prov)
+            h.bytes("TAGOF_" + name, tag if tag is not None else b"", prov)
+            h.nat("NFEED_" + name, len(feeds), prov)
+    finally:
+        hashutil._SHA256d_Hasher = orig
